@@ -1446,8 +1446,13 @@ func FunExpr(query *Query, current Map, expr *sqlparser.FuncExpr, opts ...ExprOp
 			var err error
 			query.wg.Add(1)
 			go func() {
+				defer query.wg.Done()
+				defer func() {
+					if r := recover(); r != nil {
+						rs, err = nil, AsError(r)
+					}
+				}()
 				rs, err = function(query, current, nil, slice)
-				query.wg.Done()
 			}()
 			return &rs, err
 		}
@@ -1461,7 +1466,7 @@ func FunExpr(query *Query, current Map, expr *sqlparser.FuncExpr, opts ...ExprOp
 				return nil, e
 			}
 			go func() {
-				_, err := function(query, current, nil, slice)
+				_, err := callRecovered(function, query, current, slice)
 				if err != nil {
 					if query.options.errors != nil {
 						query.options.errors(err)
@@ -1481,13 +1486,13 @@ func FunExpr(query *Query, current Map, expr *sqlparser.FuncExpr, opts ...ExprOp
 			}
 			query.wg.Add(1)
 			go func() {
-				_, err := function(query, current, nil, slice)
+				defer query.wg.Done()
+				_, err := callRecovered(function, query, current, slice)
 				if err != nil {
 					if query.options.errors != nil {
 						query.options.errors(err)
 					}
 				}
-				query.wg.Done()
 			}()
 			return Ommit(true), nil
 		}
@@ -1553,6 +1558,18 @@ func FunExpr(query *Query, current Map, expr *sqlparser.FuncExpr, opts ...ExprOp
 		}
 	}
 }
+
+// callRecovered runs a function on behalf of a goroutine started by FunExpr and
+// turns a panic into an error: nothing up the stack of a goroutine can recover it
+func callRecovered(function Function, query *Query, current Map, args []any) (rs any, err error) {
+	defer func() {
+		if r := recover(); r != nil {
+			rs, err = nil, AsError(r)
+		}
+	}()
+	return function(query, current, nil, args)
+}
+
 func AggrFunExpr(query *Query, current Map, expr sqlparser.AggrFunc, opts ...ExprOption) (any, error) {
 	name := strings.ToLower(expr.AggrName())
 	function, ok := functions[name]
